@@ -279,6 +279,10 @@ func main() {
 		r.Distinct(fmt.Sprintf("%s|%d rows|%s|sv%d|%v", c.Name, len(rp.Ops), rp.Search, rp.SV, len(viol) > 0))
 	}
 
+	if r.Replay != "" && mysqlReplay(r, ks) { // MySQL replay files (part "mysql...", see mysql.go)
+		os.RemoveAll(dir)
+		r.Finish()
+	}
 	if r.Replay != "" {
 		var rp replayT
 		r.LoadReplay(&rp)
@@ -354,6 +358,7 @@ func main() {
 	}
 	r.States(states)
 	r.Set("bounds", map[string]int{"max_rows": maxRows, "configs": len(cfgs)})
+	mysqlPart(r, ks, thorough) // MySQL half (mysql.go); last: it switches the process-wide SQL dialect
 	r.Rule("state = multiset of stored plaintexts (<= max_rows rows over the value pool, each row written by literal / text parameter / binary parameter); transition = one statement through the real proxy; every (multiset, search statement kind, searched value) is executed from a fresh session and compared with a shadow database; distinct_nontrivial = distinct (config, row count, search kind, searched value, violated?)")
 	r.Assume("Themis replaced by the pure-Go stand-in", "database end is the reference database /verif/mc/sess/pgdb.go which evaluates substr()/=/<>/AND/OR/joins literally", "PostgreSQL proxy only")
 	r.Finish()
